@@ -46,6 +46,8 @@ def run_job(job):
                cov={}, error=None, sample=None, nontrivial=None)
     try:
         tr = profiles.RUNNERS[prof](pair, gen.Rng(seed), variant, opts)
+    except gen.TraceEnded as te:
+        tr = te.trace
     except Exception:
         res["error"] = traceback.format_exc()[-1500:]
         pair.close()
